@@ -56,7 +56,9 @@ int vnadata_set_fz0_vector(vnadata_t *vdp, int findex,
 	    return -1;
 	}
     }
-    (void)memcpy((void *)vdip->vdi_z0_vector_vector[findex],
-	    (void *)z0_vector, ports * sizeof(double complex));
+    if (ports > 0) {
+	(void)memcpy((void *)vdip->vdi_z0_vector_vector[findex],
+		(void *)z0_vector, ports * sizeof(double complex));
+    }
     return 0;
 }
